@@ -10,7 +10,7 @@ from specs.acks import *
 @contract('mqtt.client.pubsubs.MQTTProtocol._refillPublish', props=['C10', 'C05', 'C12', 'C13'])
 def _(self: Ref['mqtt.client.pubsubs.MQTTProtocol'], dup: bool):
     requires(is_obj(self.addr))
-    requires(inv(self) and is_list_bytes(self.transport.tr_out))
+    requires(inv(self) and is_list_bytes(self.transport.tr_out) and isa(self._pingReq, 'mqtt.pdu.PINGREQ'))
     h0 = dq_head(Q(self))
     n0 = len(W(self))
     modifies(all_but(KEEP_REFILL))
@@ -26,6 +26,7 @@ def _(self: Ref['mqtt.client.pubsubs.MQTTProtocol'], dup: bool):
     # entries that were in flight are untouched; new ones are driven by a fresh timer
     ensures(implies(old(alarms_set(self)), alarms_set(self)))
     ensures(same_containers(self))
+    ensures(unchanged(self._pingReq.alarm))
     # the other windows are not touched
     ensures(forall(lambda k: contains(R(self), k) == old(contains(R(self), k)) and R(self)[k] == old(R(self)[k])))
     ensures(forall(lambda k: contains(S(self), k) == old(contains(S(self), k)) and S(self)[k] == old(S(self)[k])))
@@ -49,6 +50,7 @@ def _():
     invariant(len(W(self)) <= old(len(W(self))) or len(W(self)) <= self._window)
     invariant(implies(old(alarms_set(self)), alarms_set(self)))
     invariant(same_containers(self))
+    invariant(unchanged(self._pingReq.alarm))
     invariant(forall(lambda k: contains(R(self), k) == old(contains(R(self), k)) and R(self)[k] == old(R(self)[k])))
     invariant(forall(lambda k: contains(S(self), k) == old(contains(S(self), k)) and S(self)[k] == old(S(self)[k])))
     invariant(forall(lambda k: contains(U(self), k) == old(contains(U(self), k)) and U(self)[k] == old(U(self)[k])))
